@@ -27,5 +27,9 @@ impl VTagSet {
 /// N12: `required_tags.into_iter().map(|c| Tag(c)).collect()` followed by `sort_by_key(|t| t.0)`
 #[verifier::external_body]
 pub fn v_sorted_tags(s: VTagSet) -> (r: Vec<Tag>)
-    ensures r@.len() == s@.len(), forall|i: int| 0 <= i < r@.len() ==> s@.contains((#[trigger] r@[i]).0),
+    ensures
+        r@.len() == s@.len(),
+        forall|i: int| 0 <= i < r@.len() ==> s@.contains((#[trigger] r@[i]).0),
+        forall|t: u16| s@.contains(t) ==> exists|i: int| 0 <= i < r@.len() && (#[trigger] r@[i]).0 == t,
+        forall|i: int, j: int| 0 <= i < j < r@.len() ==> (#[trigger] r@[i]).0 < (#[trigger] r@[j]).0,
 { unimplemented!() }
